@@ -2,6 +2,9 @@ package engines
 
 import (
 	"fmt"
+	"go/ast"
+	"go/parser"
+	"go/token"
 	"os"
 	"strings"
 
@@ -28,7 +31,9 @@ func init() {
 	})
 }
 
-var c12Params = []string{"", "features=all", "features=fast+protoc", "features=protoc+fast", "features=protoc", "features=fast", "paths=source_relative", "pool=verifrun/gen/kinds.Child", "Mverif/impa.proto=verifrun/gen/impa", "module=verifrun/gen", "paths=source_relative,features=fast+protoc"}
+var c12Params = []string{"", "features=all", "features=fast+protoc", "features=protoc+fast", "features=protoc", "features=fast", "paths=source_relative", "pool=verifrun/gen/kinds.Child", "Mverif/impa.proto=verifrun/gen/impa", "module=verifrun/gen", "paths=source_relative,features=fast+protoc",
+	// valid names reaching one feature twice
+	"features=all+fast", "features=fast+protoc+fast", "features=all+all", "features=protoc+all"}
 
 func c12Units(ctx *Ctx) []*schema.Unit {
 	units := schema.FixedCorpus()
@@ -193,6 +198,17 @@ func checkC12(ctx *Ctx, c *Case, units []*schema.Unit) error {
 		if !strings.HasPrefix(content, "// Code generated by protoc-gen-go-pulsar. DO NOT EDIT.") {
 			return fmt.Errorf("output does not start with the generated-code header")
 		}
+		if dup := duplicateDecl(content); dup != "" && strings.Count(param, "+") > 0 && param != "features=fast+protoc" && param != "features=protoc+fast" {
+			// judged against the same unit under features=all (a unit that is a listed
+			// known finding may declare a name twice there as well)
+			breq, err := uni.Request("features=all", name)
+			if err != nil {
+				return fmt.Errorf("HARNESS: %v", err)
+			}
+			if bres, err := plug.Run(bin, breq, nil); err == nil && bres.Resp.Error == nil && len(bres.Resp.File) == 1 && duplicateDecl(bres.Resp.File[0].GetContent()) == "" {
+				return fmt.Errorf("param %q: the output %s (with features=all it does not): it cannot compile", param, dup)
+			}
+		}
 		hasFast := strings.Contains(content, "fastReflection_")
 		hasProtoc := strings.Contains(content, "protoimpl.EnforceVersion")
 		nmsg := len(u.File.P.MessageType)
@@ -301,3 +317,58 @@ func checkC12(ctx *Ctx, c *Case, units []*schema.Unit) error {
 }
 
 func sha(s string) string { return fmt.Sprintf("%016x", digest(s)) }
+
+// duplicateDecl parses generated source and names a package-level identifier or
+// method that is declared twice ("" if none, or if the source does not parse -
+// the plugin formats its output, so that is reported elsewhere).
+func duplicateDecl(src string) string {
+	f, err := parser.ParseFile(token.NewFileSet(), "out.go", src, parser.SkipObjectResolution)
+	if err != nil {
+		return ""
+	}
+	seen := map[string]bool{}
+	add := func(name string) string {
+		if name == "_" || name == "init" {
+			return ""
+		}
+		if seen[name] {
+			return "declares " + name + " twice"
+		}
+		seen[name] = true
+		return ""
+	}
+	for _, d := range f.Decls {
+		switch d := d.(type) {
+		case *ast.FuncDecl:
+			name := d.Name.Name
+			if d.Recv != nil && len(d.Recv.List) == 1 {
+				rt := d.Recv.List[0].Type
+				if st, ok := rt.(*ast.StarExpr); ok {
+					rt = st.X
+				}
+				if id, ok := rt.(*ast.Ident); ok {
+					name = id.Name + "." + name
+				}
+			}
+			if r := add(name); r != "" {
+				return r
+			}
+		case *ast.GenDecl:
+			for _, sp := range d.Specs {
+				switch sp := sp.(type) {
+				case *ast.TypeSpec:
+					if r := add(sp.Name.Name); r != "" {
+						return r
+					}
+				case *ast.ValueSpec:
+					for _, n := range sp.Names {
+						if r := add(n.Name); r != "" {
+							return r
+						}
+					}
+				}
+			}
+		}
+	}
+	return ""
+}
